@@ -15,8 +15,12 @@
 (*   - the single request queue as the same deque with a bound: a plain    *)
 (*     put into a full queue is refused and changes nothing, a forced put  *)
 (*     evicts from the head (LinkedDict's trimming), a get removes the     *)
-(*     head.  (The double queue's linearizability is C11's; it takes part  *)
-(*     in the race observation only.)                                      *)
+(*     head; the BLOCKING get takes effect only once there is a head (a    *)
+(*     blocking get that answers "nothing" has no linearization point);    *)
+(*   - the double request queue as the dictionary whose value is the LANE  *)
+(*     (1 or 2) of an element: ord is the arrival order, each lane has its *)
+(*     own bound (cfg.cap), a put is refused / forced into ITS lane, a get *)
+(*     takes the oldest element of lane 1, of lane 2 when lane 1 is empty. *)
 (*                                                                         *)
 (* A goroutine p Invokes a call, the call takes effect atomically at some  *)
 (* moment before it Returns (the silent step Lin), and the result it       *)
@@ -56,6 +60,28 @@ RemOK(c) == IF HasF(c, "ret") THEN c.ret = Lookup(c.k)
                  /\ IF Present(c.k) THEN c.rk = c.k ELSE c.rz = TRUE
 Full == max > 0 /\ Len(ord) >= max
 
+\* ---- the double queue: val[k] is the lane of element k ---------------------------
+Lane(i)     == SelectSeq(ord, LAMBDA k : val[k] = i)
+LaneFull(i) == cfg.cap[i] > 0 /\ Len(Lane(i)) >= cfg.cap[i]
+DHead       == IF Lane(1) # <<>> THEN Lane(1)[1] ELSE Lane(2)[1]       \* defined when ord # <<>>
+DSet(o2, k, i) == /\ ord' = o2
+                  /\ val' = [x \in Range(o2) |-> IF x = k THEN i ELSE val[x]]
+                  /\ UNCHANGED <<max, cfg>>
+\* a plain put is refused by a full lane; a forced put drops the oldest elements
+\* of its lane until there is room for one; both answer whether there was room
+DPut(c, i, force) ==
+  /\ ~Present(c.k) /\ HasF(c, "ok") /\ c.ok = ~LaneFull(i)
+  /\ IF ~LaneFull(i) THEN DSet(Append(ord, c.k), c.k, i)
+     ELSE IF ~force THEN UNCHANGED vars
+     ELSE LET ln   == Lane(i)
+              keep == {ln[j] : j \in (Len(ln) - cfg.cap[i] + 2)..Len(ln)}
+          IN DSet(Append(SelectSeq(ord, LAMBDA k : val[k] # i \/ k \in keep), c.k), c.k, i)
+\* a dequeue: the head, or (only the calls that do not wait) "nothing" when empty
+DTake(c, waits) ==
+  /\ HasF(c, "ret")
+  /\ IF Len(ord) > 0 THEN c.ret = <<DHead>> /\ Drop(DHead)
+                     ELSE ~waits /\ c.ret = <<>> /\ UNCHANGED vars
+
 \* ---- one call taking effect: the sequential action and the recorded answer ------
 Eff(c) ==
   CASE c.o = "Put"       -> Put(c.k, c.v) /\ InsOK(c)
@@ -93,6 +119,17 @@ Eff(c) ==
                               /\ IF Full THEN UNCHANGED vars ELSE PutLast(c.k, 0)
     [] c.o = "QPutForce"   -> ~Present(c.k) /\ HasF(c, "ok") /\ c.ok = ~Full /\ PutLast(c.k, 0)
     [] c.o \in {"QGetNoWait", "QGetTimeout"} -> RemoveFirst /\ HasF(c, "ret") /\ FirstValOK(c.ret)
+    \* the blocking dequeue returns an element: it cannot take effect on an empty queue
+    [] c.o = "QGet"        -> Len(ord) > 0 /\ RemoveFirst /\ HasF(c, "ret") /\ FirstValOK(c.ret)
+    \* the double queue
+    [] c.o = "DPut1"       -> DPut(c, 1, FALSE)
+    [] c.o = "DPut2"       -> DPut(c, 2, FALSE)
+    [] c.o = "DPutForce1"  -> DPut(c, 1, TRUE)
+    [] c.o = "DPutForce2"  -> DPut(c, 2, TRUE)
+    [] c.o \in {"DGetNoWait", "DGetTimeout"} -> DTake(c, FALSE)
+    [] c.o = "DGet"        -> DTake(c, TRUE)
+    [] c.o = "Size1"       -> UNCHANGED vars /\ HasF(c, "n") /\ c.n = Len(Lane(1))
+    [] c.o = "Size2"       -> UNCHANGED vars /\ HasF(c, "n") /\ c.n = Len(Lane(2))
     [] OTHER -> FALSE
 
 WellFormed(c) == /\ HasF(c, "p") /\ c.p \in Proc /\ HasF(c, "o") /\ HasF(c, "k") /\ HasF(c, "v")
